@@ -1,2 +1,132 @@
-/-! placeholder driver (property C18 not built yet) -/
-def main : IO Unit := IO.println "bad-op"
+import LlgoVerif.Util
+import LlgoVerif.Model.Targets
+import LlgoVerif.Spec.Targets
+/-! Line-protocol driver for C18 (stateful: the state is the directory `FS` built so far).
+
+    reset                               -> ok           forget all files
+    bad  N                              -> ok           file N exists but is not parsable
+    file N INH FIELD*                   -> ok           file N parses to a RawConfig; INH = `.` | H,H,…
+                                                        FIELD = s:GoName=H | b:GoName | l:GoName=H,H,…
+    load  N FUEL | loadv N FUEL | spec N FUEL
+                                        -> ok CFG | err missing|parse|cycle H | diverge
+                                           (`load` = model of the code as written, `loadv` = with the visited path,
+                                            `spec` = specConfig of the lineage)
+    lineage N FUEL                      -> ok H,H,… | err … | diverge
+    acyclic N                           -> true | false
+    fields                              -> ok GoName:gotype …     the fields the model has
+    CFG = Name=H then the set fields in model order:  s:GoName=H  b:GoName  l:GoName=H,H,…
+    (N, H = hex of UTF-8 bytes, `-` = empty string) -/
+open LlgoVerif LlgoVerif.Util LlgoVerif.Targets
+
+def setStr (c : Config) (v : String) : SField → Config
+  | .llvmTarget => { c with llvmTarget := v }
+  | .cpu => { c with cpu := v }
+  | .features => { c with features := v }
+  | .goos => { c with goos := v }
+  | .goarch => { c with goarch := v }
+  | .libc => { c with libc := v }
+  | .rtLib => { c with rtLib := v }
+  | .linker => { c with linker := v }
+  | .linkerScript => { c with linkerScript := v }
+  | .codeModel => { c with codeModel := v }
+  | .targetABI => { c with targetABI := v }
+  | .relocationModel => { c with relocationModel := v }
+  | .binaryFormat => { c with binaryFormat := v }
+  | .uf2FamilyID => { c with uf2FamilyID := v }
+  | .flashMethod => { c with flashMethod := v }
+  | .flashCommand => { c with flashCommand := v }
+  | .flash1200BpsReset => { c with flash1200BpsReset := v }
+  | .serial => { c with serial := v }
+  | .msdFirmwareName => { c with msdFirmwareName := v }
+  | .emulator => { c with emulator := v }
+  | .openOCDInterface => { c with openOCDInterface := v }
+  | .openOCDTransport => { c with openOCDTransport := v }
+  | .openOCDTarget => { c with openOCDTarget := v }
+
+def setList (c : Config) (v : List String) : LField → Config
+  | .buildTags => { c with buildTags := v }
+  | .cFlags => { c with cFlags := v }
+  | .ldFlags => { c with ldFlags := v }
+  | .extraFiles => { c with extraFiles := v }
+  | .serialPort => { c with serialPort := v }
+  | .msdVolumeName => { c with msdVolumeName := v }
+  | .gdb => { c with gdb := v }
+
+
+def unhexStr (h : String) : Option String := do
+  let bs ← unhex h
+  String.fromUTF8? (ByteArray.mk bs.toArray)
+
+def hexStr (s : String) : String := hex s.toUTF8.toList
+
+def hexStrs (l : List String) : String := ",".intercalate (l.map hexStr)
+
+def unhexStrs (s : String) : Option (List String) := (s.splitOn ",").mapM unhexStr
+
+def showConfig (c : Config) : String :=
+  let ss := SField.all.filterMap fun f => if c.str f ≠ "" then some s!"s:{f.goName}={hexStr (c.str f)}" else none
+  let bs := if c.rp2040BootPatch then ["b:RP2040BootPatch"] else []
+  let ls := LField.all.filterMap fun f => if (c.list f).length > 0 then some s!"l:{f.goName}={hexStrs (c.list f)}" else none
+  " ".intercalate (s!"Name={hexStr c.name}" :: (ss ++ bs ++ ls))
+
+def showErr : Err → String
+  | .missing n => s!"err missing {hexStr n}"
+  | .parse n => s!"err parse {hexStr n}"
+  | .cycle n => s!"err cycle {hexStr n}"
+
+def showOutcome : Outcome Config → String
+  | .ok c => "ok " ++ showConfig c
+  | .error e => showErr e
+  | .diverge => "diverge"
+
+def parseField (c : Config) (tok : String) : Option Config :=
+  match tok.splitOn ":" with
+  | ["s", kv] =>
+    match kv.splitOn "=" with
+    | [k, v] => do
+      let f ← SField.all.find? (fun f => f.goName = k)
+      let v ← unhexStr v
+      pure (setStr c v f)
+    | _ => none
+  | ["b", k] => if k = "RP2040BootPatch" then some { c with rp2040BootPatch := true } else none
+  | ["l", kv] =>
+    match kv.splitOn "=" with
+    | [k, v] => do
+      let f ← LField.all.find? (fun f => f.goName = k)
+      let v ← unhexStrs v
+      pure (setList c v f)
+    | _ => none
+  | _ => none
+
+def handle (fs : FS) (line : String) : FS × String :=
+  match fields line with
+  | ["reset"] => ([], "ok")
+  | ["fields"] => (fs, "ok " ++ " ".intercalate (modelFields.map fun f => s!"{f.1}:{f.2}"))
+  | ["bad", n] =>
+    match unhexStr n with
+    | some n => (fs ++ [(n, .bad)], "ok")
+    | none => (fs, "bad-op")
+  | "file" :: n :: inh :: fl =>
+    match unhexStr n, (if inh = "." then some [] else unhexStrs inh), fl.foldlM parseField ({} : Config) with
+    | some n, some inh, some c => (fs ++ [(n, .good { inherits := inh, config := c })], "ok")
+    | _, _, _ => (fs, "bad-op")
+  | [op, n, fuel] =>
+    match unhexStr n, fuel.toNat? with
+    | some n, some fuel =>
+      if op = "load" then (fs, showOutcome (load fs fuel n))
+      else if op = "loadv" then (fs, showOutcome (loadV fs fuel [] n))
+      else if op = "spec" then (fs, showOutcome (specResolve fs fuel n))
+      else if op = "lineage" then
+        (fs, match lineage fs fuel n with
+          | .ok ds => "ok " ++ hexStrs (ds.map (·.1))
+          | .error e => showErr e
+          | .diverge => "diverge")
+      else (fs, "bad-op")
+    | _, _ => (fs, "bad-op")
+  | ["acyclic", n] =>
+    match unhexStr n with
+    | some n => (fs, if acyclic fs n then "true" else "false")
+    | none => (fs, "bad-op")
+  | _ => (fs, "bad-op")
+
+def main : IO Unit := lineLoopSt ([] : FS) handle
